@@ -73,6 +73,26 @@ pub fn check_engine(ctx: &Ctx, case: &Case, obs: &mut Obs, replaying: bool) -> C
         Ok(s) => s,
         Err(e) => return Err(Fail::new("non_numeric_answer", e)),
     };
+    // second query form: what the protocol handler generates for `?rel(args)` (this is the form
+    // that triggers the magic-set rewrite)
+    if got_set == expected {
+        let text = crate::common::gen::handler_style_text(case);
+        if let Ok(t2) = eng::run_iql_text(&text, case, &RunCfg::default()) {
+            let model = crate::common::prog::eval(&case.prog.clauses, &case.edb).map_err(|e| Fail::new("reference_failed", format!("{e:?}")))?;
+            let exp2 = crate::common::gen::handler_style_expected(case, &model);
+            let got2 = key_set(&t2).map_err(|e| Fail::new("non_numeric_answer", e))?;
+            obs.class("handler_style_form_checked");
+            if got2 != exp2 {
+                let (missing, extra) = diff_sets(&got2, &exp2);
+                let kind = if !extra.is_empty() { "extra_tuples" } else { "missing_tuples" };
+                let mut fail = Fail::new(kind, format!("[handler-style query form] program:\n{}\nedb: {:?}\nengine {} rows, reference {}; missing {:?} extra {:?}", text, case.edb, got2.len(), exp2.len(), missing, extra));
+                if let Some(k) = classify(case, &f, kind, &expected) {
+                    fail = fail.known(k);
+                }
+                return Err(fail);
+            }
+        }
+    }
     if got_set != expected {
         let (missing, extra) = diff_sets(&got_set, &expected);
         let kind = if !extra.is_empty() { "extra_tuples" } else { "missing_tuples" };
